@@ -340,12 +340,16 @@ class MementoFunction(MementoFunctionBase):
         version_salt: str = None,
     ) -> MementoFunctionType:
         """Re-constructs a clone of this function, modifying one or more attributes"""
-        return MementoFunction(
+        # Only a version declared by the user is passed on as an explicit version. A version
+        # that was calculated from the code is passed on as such, together with the hash rules
+        # it was calculated from: the clone stays automatically versioned, so its nested calls
+        # are still validated against its dependencies.
+        clone = MementoFunction(
             fn=fn or self.fn,
             src_fn=src_fn or self.src_fn,
             cluster_name=cluster_name or self.cluster_name,
-            version=version or self.version(),
-            calculated_version=calculated_version or self._calculated_version,
+            version=version or self.explicit_version,
+            calculated_version=calculated_version or self.version(),
             context=context or self.context,
             partial_args=partial_args or self.partial_args,
             partial_kwargs=partial_kwargs or self.partial_kwargs,
@@ -356,6 +360,8 @@ class MementoFunction(MementoFunctionBase):
             version_salt=version_salt or self._constructor_provided_version_salt,
             register_fn=False,
         )
+        clone._hash_rules = self._hash_rules
+        return clone
 
     def call(self, *args, **kwargs):
         self._validate_dependency()
@@ -402,7 +408,11 @@ class MementoFunction(MementoFunctionBase):
         self._fn_reference = FunctionReference(
             self,
             cluster_name=self.cluster_name,
-            version=self.version(),
+            version=(
+                self.explicit_version
+                if self.explicit_version is not None
+                else self._calculated_version
+            ),
             partial_args=self.partial_args,
             partial_kwargs=self.partial_kwargs,
         )
@@ -420,6 +430,8 @@ class MementoFunction(MementoFunctionBase):
         if self._calculated_version is not None:
             cluster = Environment.get().get_cluster(cluster_name=self.cluster_name)
             if cluster is not None and cluster.locked:
+                if self._fn_reference is None:
+                    self._update_fn_reference()
                 return
 
         # Check the version cache to see if we need to recompute the version
@@ -446,13 +458,14 @@ class MementoFunction(MementoFunctionBase):
                 else:
                     if self._calculated_version is None:
                         self._calculated_version = entry.version
+                    if self._fn_reference is None:
                         self._update_fn_reference()
                     return
 
         # Otherwise, it needs to be calculated based on code hash and dependencies
         version = self._recompute_version()
 
-        if self._calculated_version != version:
+        if self._calculated_version != version or self._fn_reference is None:
             self._calculated_version = version
             self._update_fn_reference()
 
